@@ -4,6 +4,12 @@ Sections:
   slicetiming   translated fragment (Generated/SliceTiming.v) + theorems for all n;
                 correspondence of the translated model with the running code;
                 documented-order oracle evaluated on the implementation.
+  timediff      time_slice_diffs: Coq model (TsdModel.v) vs implementation on exact data; definition and
+                axis-equivariance oracles on the implementation; time_slice_diffs_image axis names.
+  masks         compute_mask threshold search, intersect_masks rule, largest_cc, threshold_connect_components
+                (MaskModel.v) vs implementation; affine-invariance / semantics oracles; series_from_mask order.
+  generators    slice_generator / parcels / data_generator / slice_parcels (GenModel.v) vs implementation.
+  pca_oracles   PCA properties evaluated on the implementation (1e-10).
 """
 from fractions import Fraction
 
@@ -340,7 +346,10 @@ def _timediff_image(ck, tsd_arr, tsd_img):
             for sa in range(nd):
                 if ta == sa:
                     continue
-                ref = tsd_arr(arr, ta, sa)
+                try:
+                    ref = tsd_arr(arr, ta, sa)
+                except Exception:  # noqa  (already reported by the array-level oracles)
+                    continue
                 specs = [(ta, sa), (dom[ta], dom[sa]), (ran[ta], sa), (ta - nd, dom[sa]), (dom[ta], ran[sa]), (ta, sa - nd)]
                 for tspec, sspec in specs:
                     n += 1
@@ -530,7 +539,7 @@ def masks(ck):
                     comps = _components(want)
                     if comps:
                         big = max(len(c) for c in comps)
-                        sel = sorted(map(tuple, np.argwhere(gcc)))
+                        sel = sorted(tuple(int(x) for x in p) for p in np.argwhere(gcc))
                         if sel not in [c for c in comps if len(c) == big]:
                             ck.fail("intersect_masks/cc-not-largest-component", "intersect_masks(cc=True) is not a largest connected component "
                                     "of the thresholded intersection", rep)
@@ -565,7 +574,7 @@ def masks(ck):
         else:
             big = max(len(c) for c in comps)
             first_big = [c for c in comps if len(c) == big][0]       # scan-order tie rule (labels are numbered in scan order)
-            sel = sorted(map(tuple, np.argwhere(got)))
+            sel = sorted(tuple(int(x) for x in p) for p in np.argwhere(got))
             if sel != first_big:
                 ck.fail("largest_cc/not-largest-component/%s" % ("tie" if sum(len(c) == big for c in comps) > 1 else "unique"),
                         "largest_cc selected %s; components (6-connectivity) have sizes %s, expected the first largest one %s"
@@ -646,11 +655,557 @@ def _series_from_mask(ck, nm, rng):
     return n
 
 
+# ============================================================ generators.py / pca.py (clauses 3, 4)
+"""C19 clauses 3 (generators.py) and 4 (pca.py): `generators(ck)` and `pca_oracles(ck)`.
+To be pasted into harness/props/c19.py (there: `from ..kit import ...`)."""
+
+
+
+HDR_GEN = ("From Coq Require Import ZArith List Bool.\n"
+           "From NV.C19 Require Import GenModel.\n")
+
+
+# ---------------------------------------------------------------- clause 3: generators.py
+def _gen_canon_index(idx, shape):
+    """index tuple yielded by slice_generator -> list of ints, whole-axis slices mapped to -1"""
+    out = []
+    for pos, v in enumerate(idx):
+        if isinstance(v, slice):
+            if v == slice(None, None, None) or (v.start in (0, None) and v.step is None and v.stop == shape[pos]):
+                out.append(-1)
+            else:
+                raise ValueError("unexpected slice %r" % (v,))
+        else:
+            out.append(int(v))
+    return out
+
+
+def _gen_run(fn, data, axis):
+    """run slice_generator; items yielded before an IndexError, and whether one was raised"""
+    items, err = [], False
+    try:
+        for idx, blk in fn(data, axis):
+            items.append((_gen_canon_index(idx, data.shape), np.asarray(blk)))
+    except IndexError:
+        err = True
+    except Exception as e:  # noqa  - anything else is reported by the caller as raises-other
+        err = "%s: %s" % (type(e).__name__, e)
+    return items, err
+
+
+def _gen_direct_block(data, t):
+    """data[t] by an independent route: boolean selection over np.indices (row-major order)"""
+    sel = np.ones(data.shape, bool)
+    grid = np.indices(data.shape)
+    for pos, v in enumerate(t):
+        if v != -1:
+            sel &= grid[pos] == v
+    return data[sel]
+
+
+def _gen_items_term(items, err):
+    return "(%s, %s)" % (clist(["(%s, %s)" % (czl(t), czl(np.asarray(b).ravel().tolist())) for t, b in items]),
+                         cbool(err))
+
+
+def _gen_masks_term(masks):
+    return clist([clist([cbool(x) for x in np.asarray(m).ravel().tolist()]) for m in masks])
+
+
+def _gen_labels_term(labels):
+    if labels is None:
+        return "None"
+    return "(Some %s)" % clist(["(Many %s)" % czl(l) if isinstance(l, (list, tuple)) else "(One %s)" % cz(l)
+                               for l in labels])
+
+
+def generators(ck):
+    from nipy.core.utils import generators as G
+    rng = ck.rng("generators")
+    thorough = ck.thorough()
+    terms, meta = [], []      # model-vs-implementation terms
+
+    # ---------------- slice_generator
+    shapes = []
+    for nd in (1, 2, 3, 4):
+        shapes += list(itertools.product((1, 2, 3), repeat=nd))
+    shapes.sort(key=lambda s: (int(np.prod(s)), len(s), s))      # small to large: the first replay is the smallest
+    n_cases = {"int": 0, "pair": 0, "single": 0, "three+": 0, "other": 0}
+    n_defect = 0
+    cap4 = ck.n(40, 10 ** 9)      # quick tier: number of 4-d shapes whose full axis set is run
+    seen4 = 0
+    for shape in shapes:
+        nd = len(shape)
+        size = int(np.prod(shape))
+        data = np.arange(size).reshape(shape)
+        full = True
+        if nd == 4:
+            seen4 += 1
+            full = seen4 <= cap4 or shape in ((2, 2, 2, 2), (3, 2, 3, 2), (3, 3, 3, 3))
+        axes_cases = [("int", a) for a in range(-nd, nd)]
+        axes_cases += [("single", [a]) for a in range(nd)]
+        axes_cases += [("pair", list(p)) for p in itertools.permutations(range(nd), 2)]
+        if nd >= 2:
+            axes_cases += [("pair", [-1, 0]), ("pair", [0, -nd + 1])]       # negative entries (Python sequence indexing)
+            axes_cases += [("other", [0, 0]), ("other", [nd])]              # repeated axis, out-of-range axis
+        if nd == 1:
+            axes_cases += [("other", []), ("other", [1])]
+        trip = list(itertools.permutations(range(nd), 3)) + list(itertools.permutations(range(nd), 4))
+        if not full:
+            trip = trip[:: 7]
+            axes_cases = axes_cases[:: 3]
+        axes_cases += [("three+", list(p)) for p in trip]
+        for kind, axis in axes_cases:
+            items, err = _gen_run(G.slice_generator, data, axis)
+            if isinstance(err, str):
+                ck.fail("slice_generator/raises-other", "slice_generator(np.arange(%d).reshape%s, axis=%r) raised %s after yielding %d items"
+                        % (size, shape, axis, err, len(items)), {"shape": shape, "axis": axis, "error": err})
+                continue
+            n_cases[kind] += 1
+            ck.count(("sg", shape, repr(axis)), nontrivial=size > 1, bucket="sg:%s,ndim=%d" % (kind, nd))
+            rp = {"call": "list(nipy.core.utils.generators.slice_generator(np.arange(%d).reshape%s, axis=%r))"
+                  % (size, shape, axis), "shape": shape, "axis": axis,
+                  "yielded_index_tuples": [t for t, _ in items], "IndexError": err}
+            # oracle 1 (independent of Coq): every yielded block is data[index] by direct selection
+            for t, b in items:
+                if not np.array_equal(np.asarray(b).ravel(), _gen_direct_block(data, t)):
+                    ck.fail("slice_generator/block-not-data-at-index",
+                            "slice_generator(arange.reshape%s, axis=%r): block yielded with index %s is not data[index]"
+                            % (shape, axis, t), rp)
+                    break
+            # oracle 2: the documented enumeration - all index combinations, each once, first axis fastest
+            if kind == "int":
+                a = axis
+                got = [t for t, _ in items]
+                good = (not err) and len(items) == shape[a]
+                if good:    # the yielded index must select exactly data[..., j, ...] along `axis` (for reading and writing)
+                    for j, (t, b) in enumerate(items):
+                        z = np.zeros(shape, int)
+                        z[tuple(slice(None) if v == -1 else v for v in t)] = 1
+                        w = np.zeros(shape, int)
+                        w[(slice(None),) * (a % nd) + (j,)] = 1
+                        good = good and np.array_equal(z, w) and np.array_equal(b, np.take(data, j, axis=a))
+                if not good:
+                    sig = "slice_generator/int-axis/" + ("negative" if a < 0 else "nonnegative")
+                    ck.fail(sig, "slice_generator(np.arange(%d).reshape%s, axis=%d) %s instead of slicing axis %d: "
+                            "(slice(None),)*axis is the empty tuple for a negative axis"
+                            % (size, shape, a, "yields indices %s%s" % (got, " then raises IndexError" if err else ""), a % nd),
+                            rp)
+            elif kind in ("single", "pair", "three+"):
+                ax = [a % nd for a in axis]
+                lens = [shape[a] for a in ax]
+                want = []
+                for n in range(int(np.prod(lens))):
+                    t = [-1] * nd
+                    for j, a in enumerate(ax):
+                        t[a] = (n // int(np.prod(lens[:j]))) % lens[j]
+                    want.append(t)
+                got = [t for t, _ in items]
+                good = (not err) and got == want
+                if good:    # consequences, checked separately: distinct and covering the product
+                    combos = set(tuple(t[a] for a in ax) for t in got)
+                    good = len(combos) == len(got) == int(np.prod(lens))
+                if not good:
+                    if len(axis) >= 3:
+                        n_defect += 1
+                        sig = "slice_generator/three-or-more-axes/cumulative-mod"
+                    else:
+                        sig = "slice_generator/documented-order/%d-axes" % len(axis)
+                    nbad = next((k for k in range(len(want)) if k >= len(got) or got[k] != want[k]), len(want))
+                    ck.fail(sig, "slice_generator(np.arange(%d).reshape%s, axis=%r) %s at step n=%d (expected index %s): "
+                            "`x = int(n / div %% mod)` uses the cumulative product as modulus"
+                            % (size, shape, axis, "raises IndexError" if err and nbad >= len(got) else
+                               "yields index %s" % (got[nbad] if nbad < len(got) else None), nbad,
+                               want[nbad] if nbad < len(want) else None), rp)
+            # correspondence with the Coq model (exact: tuples, blocks, IndexError)
+            if kind == "int":
+                terms.append("run_eqb (sg_int %s %s %s) %s" % (cnatl(shape), czl(range(size)), cz(axis),
+                                                              _gen_items_term(items, err)))
+            else:
+                terms.append("run_eqb (sg_list %s %s %s) %s" % (cnatl(shape), czl(range(size)), czl(axis),
+                                                               _gen_items_term(items, err)))
+            meta.append(("slice_generator", rp, "sg_int %s %s %s" % (cnatl(shape), czl(range(size)), cz(axis)) if kind == "int"
+                         else "sg_list %s %s %s" % (cnatl(shape), czl(range(size)), czl(axis))))
+            if shape == (2, 3) and kind == "pair" and axis == [1, 0]:
+                ck.sample({"call": rp["call"], "yielded_index_tuples": rp["yielded_index_tuples"]})
+    # negative entries in a list axis behave like their positive counterparts
+    for shape in ((2, 3), (3, 2, 2), (2, 1, 3, 2)):
+        nd = len(shape)
+        data = np.arange(int(np.prod(shape))).reshape(shape)
+        for p in itertools.permutations(range(nd), 2):
+            for q in ([p[0] - nd, p[1]], [p[0], p[1] - nd], [p[0] - nd, p[1] - nd]):
+                a, _ = _gen_run(G.slice_generator, data, list(p))
+                b, eb = _gen_run(G.slice_generator, data, q)
+                ck.count(("sg-neg", shape, repr(q)), bucket="sg:negative-list-axis")
+                if eb is not False or [t for t, _ in a] != [t for t, _ in b]:
+                    ck.fail("slice_generator/list-axis/negative-entry",
+                            "slice_generator(arange.reshape%s, axis=%r) differs from axis=%r" % (shape, q, list(p)),
+                            {"shape": shape, "axis": q})
+
+    # ---------------- parcels, data_generator, slice_parcels
+    pshapes = []
+    for nd in (1, 2, 3):
+        pshapes += list(itertools.product((1, 2, 3), repeat=nd))
+    pshapes.sort(key=lambda s: (int(np.prod(s)), len(s), s))
+    reps = ck.n(3, 12)
+    n_parc = 0
+    for shape in pshapes:
+        size = int(np.prod(shape))
+        for rep in range(reps):
+            nvals = int(rng.integers(1, 5))
+            vals = rng.choice(np.arange(-3, 6), size=nvals, replace=False)
+            data = rng.choice(vals, size=shape)
+            flat = data.ravel().tolist()
+            present = sorted(set(flat))
+            # --- labels=None, exclude=(): the partition property, on the implementation
+            masks = [np.asarray(m) for m in G.parcels(data)]
+            n_parc += 1
+            ck.count(("parcels", shape, tuple(flat)), nontrivial=len(present) > 1, bucket="parcels:default,ndim=%d" % len(shape))
+            rp = {"call": "list(parcels(np.array(%s).reshape%s))" % (flat, shape), "data": flat, "shape": shape,
+                  "masks": [m.ravel().astype(int).tolist() for m in masks]}
+            okp = all(m.shape == data.shape and m.dtype == bool for m in masks)
+            if okp:
+                cover = np.sum([m.astype(int) for m in masks], axis=0)
+                okp = bool(np.all(cover == 1)) and all(m.any() for m in masks) and len(masks) == len(present)
+            if not okp:
+                ck.fail("parcels/not-a-partition", "parcels(%s reshaped %s): masks do not partition the array "
+                        "(every position in exactly one non-empty mask, one mask per distinct value)" % (flat, shape), rp)
+            elif [int(data[m][0]) for m in masks] != present or any(len(set(data[m].tolist())) != 1 for m in masks):
+                ck.fail("parcels/label-order", "parcels(%s): masks are not in increasing label order / not one value each" % flat, rp)
+            terms.append("masks_eqb (parcels %s None []) %s" % (czl(flat), _gen_masks_term(masks)))
+            meta.append(("parcels", rp, "parcels %s None []" % czl(flat)))
+            # --- explicit labels (scalars, tuples, lists, absent values, repeats) and exclude
+            pool = present + [9]
+            labels = []
+            for _ in range(int(rng.integers(1, 4))):
+                if rng.random() < 0.5:
+                    labels.append(int(rng.choice(pool)))
+                else:
+                    k = int(rng.integers(1, 4))
+                    lab = [int(v) for v in rng.choice(pool, size=k)]
+                    labels.append(tuple(lab) if rng.random() < 0.5 else lab)
+            exclude = tuple(int(v) for v in rng.choice(pool, size=int(rng.integers(0, 3)), replace=False))
+            for labs, exc in ((labels, ()), (labels, exclude), (None, exclude)):
+                try:
+                    ms = [np.asarray(m) for m in G.parcels(data, labels=labs, exclude=exc)]
+                except Exception as e:  # noqa
+                    ck.fail("parcels/raises", "parcels(%s, labels=%r, exclude=%r) raised %s" % (flat, labs, exc, e),
+                            {"data": flat, "shape": shape, "labels": labs, "exclude": exc})
+                    continue
+                ck.count(("parcels-l", shape, tuple(flat), repr(labs), exc), bucket="parcels:labels/exclude")
+                rp2 = {"call": "list(parcels(np.array(%s).reshape%s, labels=%r, exclude=%r))" % (flat, shape, labs, exc),
+                       "masks": [m.ravel().astype(int).tolist() for m in ms]}
+                # oracle: documented meaning - union over the label's values, excluded scalars skipped
+                eff = [l for l in (present if labs is None else labs) if isinstance(l, (list, tuple)) or l not in exc]
+                want = [np.isin(data, list(l) if isinstance(l, (list, tuple)) else [l]) for l in eff]
+                if len(ms) != len(want) or any(m.shape != data.shape or not np.array_equal(m.astype(bool), w) for m, w in zip(ms, want)):
+                    ck.fail("parcels/labels-union-exclude", "parcels(%s, labels=%r, exclude=%r) is not [isin(data, label) for "
+                            "label in labels if label not in exclude]" % (flat, labs, exc), rp2)
+                terms.append("masks_eqb (parcels %s %s %s) %s" % (czl(flat), _gen_labels_term(labs), czl(exc), _gen_masks_term(ms)))
+                meta.append(("parcels", rp2, "parcels %s %s %s" % (czl(flat), _gen_labels_term(labs), czl(exc))))
+            # --- data_generator: default iterable and boolean-mask items
+            dg = list(G.data_generator(data))
+            ck.count(("dg", shape, tuple(flat)), bucket="data_generator")
+            if [i for i, _ in dg] != list(range(shape[0])) or any(not np.array_equal(d, data[i]) for i, d in dg):
+                ck.fail("data_generator/default-iterable", "data_generator(%s reshaped %s) is not [(i, data[i]) for i in range(shape[0])]"
+                        % (flat, shape), {"data": flat, "shape": shape})
+            rows = clist([czl(np.asarray(d).ravel().tolist()) for _, d in dg])
+            terms.append("leqb (fun a b => Nat.eqb (fst a) (fst b) && leqb Z.eqb (snd a) (snd b)) (dg_default %s) %s"
+                         % (clist([czl(data[i].ravel().tolist()) for i in range(shape[0])]),
+                            clist(["(%s, %s)" % (cnat(i), czl(np.asarray(d).ravel().tolist())) for i, d in dg])))
+            meta.append(("data_generator", {"data": flat, "shape": shape}, "dg_default %s" % rows))
+            dgm = list(G.data_generator(data, masks))
+            if any(not np.array_equal(d, data.ravel()[m.ravel()]) for (m, d) in dgm) or len(dgm) != len(masks):
+                ck.fail("data_generator/boolean-mask-items", "data_generator(%s, parcels) does not select in row-major order" % flat,
+                        {"data": flat, "shape": shape})
+            terms.append("leqb (fun a b => leqb Bool.eqb (fst a) (fst b) && leqb Z.eqb (snd a) (snd b)) (dg_masks %s %s) %s"
+                         % (czl(flat), _gen_masks_term(masks),
+                            clist(["(%s, %s)" % (clist([cbool(x) for x in m.ravel().tolist()]), czl(np.asarray(d).ravel().tolist()))
+                                   for m, d in dgm])))
+            meta.append(("data_generator", {"data": flat, "shape": shape, "items": "parcels(data)"}, "dg_masks %s %s" % (czl(flat), _gen_masks_term(masks))))
+            # --- slice_parcels: nested order (slices outer, parcels of that slice inner)
+            if len(shape) >= 2:
+                for axis in list(range(len(shape))) + [[0, 1], [1, 0]]:
+                    try:
+                        sp = [(_gen_canon_index(i, shape), np.asarray(p)) for i, p in G.slice_parcels(data, axis=axis)]
+                    except Exception as e:  # noqa
+                        ck.fail("slice_parcels/raises", "slice_parcels(%s reshaped %s, axis=%r) raised %s: %s"
+                                % (flat, shape, axis, type(e).__name__, e), {"data": flat, "shape": shape, "axis": axis})
+                        continue
+                    ck.count(("sp", shape, tuple(flat), repr(axis)), bucket="slice_parcels")
+                    want = []
+                    for i, d in G.slice_generator(data, axis=axis):
+                        for v in sorted(set(np.asarray(d).ravel().tolist())):
+                            want.append((_gen_canon_index(i, shape), np.asarray(d) == v))
+                    if len(sp) != len(want) or any(a[0] != b[0] or not np.array_equal(a[1], b[1]) for a, b in zip(sp, want)):
+                        ck.fail("slice_parcels/nested-order", "slice_parcels(%s reshaped %s, axis=%r) is not the nested enumeration "
+                                "slices x parcels-of-slice" % (flat, shape, axis), {"data": flat, "shape": shape, "axis": axis})
+                    run = ("sg_int %s %s %s" % (cnatl(shape), czl(flat), cz(axis))) if isinstance(axis, int) else \
+                          ("sg_list %s %s %s" % (cnatl(shape), czl(flat), czl(axis)))
+                    mt = "slice_parcels (fst (%s)) None" % run
+                    terms.append("sp_eqb (%s) %s" % (mt, clist(["(%s, %s)" % (czl(i), clist([cbool(x) for x in p.ravel().tolist()]))
+                                                                 for i, p in sp])))
+                    meta.append(("slice_parcels", {"data": flat, "shape": shape, "axis": axis}, mt))
+    # np.unique oracle contract used by the model of parcels(labels=None): sorted distinct values
+    for _ in range(50):
+        a = rng.integers(-4, 5, size=int(rng.integers(1, 12)))
+        if np.unique(a).tolist() != sorted(set(a.tolist())):
+            ck.fail("parcels/np-unique-contract", "np.unique(%s) is not the sorted distinct values" % a.tolist(), {"a": a.tolist()})
+
+    # ---------------- correspondence: model evaluated inside Coq (vm_compute) on the same inputs
+    nbad = 0
+    if ck.build is not None and ck.build.ok:
+        res = ck.coq_bools(HDR_GEN, terms, shard=300, name="gen")
+        ck.cov["traces_validated_against_impl"] += len(res)
+        for ok, (fn, rp, mterm) in zip(res, meta):
+            if not ok:
+                nbad += 1
+                mv = ck.coq_show(HDR_GEN, mterm) if nbad == 1 else ""
+                ck.fail("%s/model-vs-impl" % fn, "Coq model and implementation disagree for %s: model gives %s"
+                        % (rp.get("call", rp), mv[:600]), dict(rp, model=mv))
+    ck.section("generators", slice_generator_cases=n_cases, three_or_more_axes_defect_cases=n_defect,
+               parcels_arrays=n_parc, model_cases=len(terms), model_disagreements=nbad)
+    ck.trust.append("np.unique returns the sorted distinct values (oracle contract for parcels(labels=None); spot-checked)")
+
+
+# ---------------------------------------------------------------- clause 4: pca.py
+def _pca_reference(Y, mask_flat, standardize, design_keep, design_resid, tol_ratio=0.01):
+    """Plain-numpy restatement: Y is (n_pts, n_vox).  Returns UX (rank, n_pts), the matrix Z whose SVD
+    defines the PCA, and the rmse scales."""
+    n = Y.shape[0]
+    if isinstance(design_resid, str):
+        def resid(A): return A - A.mean(0)[None, ...]
+    elif design_resid is None:
+        def resid(A): return A
+    else:
+        P = design_resid @ np.linalg.pinv(design_resid)
+        def resid(A): return A - P @ A
+    X = np.eye(n) if design_keep is None else design_keep @ np.linalg.pinv(design_keep)
+    UX, SX, _ = np.linalg.svd(resid(X), full_matrices=0)
+    rank = int((SX / SX.max() > tol_ratio).sum())
+    UX = UX[:, :rank].T
+    Z = UX @ Y
+    scales = np.ones(Y.shape[1])
+    if standardize:
+        r = resid(Y)
+        rmse = np.sqrt(np.square(r).sum(axis=0) / r.shape[0])
+        scales = np.where(rmse <= 0, 0, 1. / np.where(rmse <= 0, 1, rmse))
+        Z = Z * scales
+    if mask_flat is not None:
+        Z = Z * mask_flat
+    return UX, Z, scales, rank
+
+
+def _pca_align(B, Bref):
+    """signs s with B*s ~ Bref column-wise"""
+    s = np.sign(np.sum(B * Bref, axis=0))
+    s[s == 0] = 1
+    return s
+
+
+def pca_oracles(ck):
+    from nipy.algorithms.utils.pca import pca, pca_image
+    rng = ck.rng("pca")
+    TOL = 1e-10
+    ncases = ck.n(600, 4000)
+    n_done = 0
+    n_vec = 0
+
+    def close(a, b, scale=1.0, tol=TOL):
+        a, b = np.asarray(a, float), np.asarray(b, float)
+        return a.shape == b.shape and bool(np.all(np.abs(a - b) <= tol * max(1.0, scale)))
+
+    for case in range(ncases):
+        nd = 2 + case % 3 if case < ncases // 2 else int(rng.integers(2, 5))
+        axis_pos = int(rng.integers(0, nd))
+        npts = int(rng.integers(3, 7))
+        shape = [int(rng.integers(1, 5)) for _ in range(nd)]
+        shape[axis_pos] = npts
+        while int(np.prod(shape)) // npts < npts + 2:       # enough voxels for a full-rank covariance
+            k = int(rng.integers(0, nd))
+            if k != axis_pos:
+                shape[k] += 1
+            elif nd == 1:
+                break
+        shape = tuple(shape)
+        data = np.round(rng.normal(size=shape) * 8) / 4 + rng.normal(size=shape) * 0.5
+        scale = float(np.abs(data).max())
+        axis = axis_pos if rng.random() < 0.5 else axis_pos - nd
+        vshape = shape[:axis_pos] + shape[axis_pos + 1:]
+        nvox = int(np.prod(vshape))
+        mkind = ["none", "random", "all-true"][int(rng.integers(0, 3))]
+        mask = None
+        if mkind == "random":
+            mask = rng.random(vshape) < 0.6
+            idx = rng.choice(nvox, size=min(nvox, npts + 1), replace=False)
+            mask.reshape(-1)[idx] = True
+            if mask.all() and nvox > npts + 2:
+                mask.reshape(-1)[[i for i in range(nvox) if i not in idx][0]] = False
+        elif mkind == "all-true":
+            mask = np.ones(vshape, bool)
+        standardize = bool(rng.integers(0, 2))
+        rk = ["mean", "none", "matrix"][int(rng.integers(0, 3))]
+        design_resid = {"mean": "mean", "none": None}.get(rk, rng.normal(size=(npts, int(rng.integers(1, 3)))))
+        design_keep = None if rng.random() < 0.6 else rng.normal(size=(npts, npts - 1))
+        opts = dict(standardize=standardize, design_resid=design_resid, design_keep=design_keep)
+        rp = {"shape": shape, "axis": axis, "mask": None if mask is None else mask.astype(int).tolist(),
+              "standardize": standardize, "design_resid": design_resid if not isinstance(design_resid, np.ndarray) else design_resid.tolist(),
+              "design_keep": None if design_keep is None else design_keep.tolist(), "data": data.tolist(),
+              "call": "nipy.algorithms.utils.pca.pca(np.array(data), axis=axis, mask=np.array(mask, bool) if mask is not None else None, "
+                      "standardize=..., design_resid=..., design_keep=...)"}
+        feat = "ndim=%d,%s-axis,mask=%s" % (nd, "negative" if axis < 0 else "nonnegative", mkind)
+        try:
+            res = pca(data, axis=axis, mask=mask, **opts)
+        except Exception as e:  # noqa
+            ck.fail("pca/raises", "pca on a %s float array, axis=%d raised %s: %s" % (shape, axis, type(e).__name__, e), rp)
+            continue
+        n_done += 1
+        ck.count(("pca", case), nontrivial=True, bucket="pca:" + feat)
+        B, pv, proj = res['basis_vectors'], res['pcnt_var'], res['basis_projections']
+        Y = np.moveaxis(data, axis_pos, 0).reshape(npts, -1)
+        mflat = None if mask is None else mask.reshape(-1).astype(float)
+        UX, Z, scales, rank = _pca_reference(Y, mflat, standardize, design_keep, design_resid)
+        # shapes, returned axis
+        if res['axis'] != axis_pos:
+            ck.fail("pca/axis-equivariance/returned-axis", "pca(axis=%d) on ndim %d returns axis %r, expected %d"
+                    % (axis, nd, res['axis'], axis_pos), rp)
+        want_shape = shape[:axis_pos] + (rank,) + shape[axis_pos + 1:]
+        if B.shape != (npts, rank) or pv.shape != (rank,) or proj.shape != want_shape:
+            ck.fail("pca/projections-shape", "pca on %s axis=%d: shapes basis %s pcnt %s projections %s, expected (%d,%d) (%d,) %s"
+                    % (shape, axis, B.shape, pv.shape, proj.shape, npts, rank, rank, want_shape), rp)
+            continue
+        # (1) orthonormal basis
+        if not close(B.T @ B, np.eye(rank)):
+            ck.fail("pca/basis-not-orthonormal", "pca on %s axis=%d (%s): basis_vectors.T @ basis_vectors is not the identity (max dev %.3g)"
+                    % (shape, axis, feat, np.abs(B.T @ B - np.eye(rank)).max()), rp)
+        # (2) percent variance: non-increasing, non-negative, sums to 100
+        if np.any(np.diff(pv) > 1e-10 * 100):
+            ck.fail("pca/pcnt-var-order", "pca on %s axis=%d (%s): pcnt_var %s is not non-increasing" % (shape, axis, feat, pv.tolist()), rp)
+        if np.any(pv < -1e-10 * 100):
+            ck.fail("pca/pcnt-var-negative", "pca on %s axis=%d: pcnt_var %s has a negative entry" % (shape, axis, pv.tolist()), rp)
+        if abs(pv.sum() - 100) > 1e-10 * 100:
+            ck.fail("pca/pcnt-var-sum", "pca on %s axis=%d: pcnt_var sums to %r, not 100" % (shape, axis, float(pv.sum())), rp)
+        # (3) equals the SVD of the projected, standardised, mask-weighted data
+        U, S, _ = np.linalg.svd(Z, full_matrices=0)
+        ev = S ** 2
+        pv_ref = 100 * ev / ev.sum()
+        zs = max(1.0, float(ev.max()))
+        bad = None
+        if not close(pv, pv_ref[:rank], 100.0):
+            bad = "pcnt_var %s is not 100*s_i^2/sum(s^2) = %s" % (pv.tolist(), pv_ref.tolist())
+        Bref = UX.T @ U[:, :rank]
+        if bad is None and not close(B @ B.T, Bref @ Bref.T, 1.0, 1e-9):
+            bad = "span of basis_vectors is not the span of the left singular vectors mapped back by UX.T"
+        if bad is None:
+            gaps = np.abs(np.diff(ev[:rank])) / zs
+            for i in range(rank):
+                g = min([gaps[j] for j in (i - 1, i) if 0 <= j < rank - 1] or [1.0])
+                if g > 1e-6 and ev[i] / zs > 1e-6:
+                    n_vec += 1
+                    d = min(np.abs(B[:, i] - Bref[:, i]).max(), np.abs(B[:, i] + Bref[:, i]).max())
+                    if d > 1e-10 / g * 10:
+                        bad = "basis vector %d differs from +-UX.T u_%d by %.3g (relative eigenvalue gap %.3g)" % (i, i, d, g)
+                        break
+        if bad is not None:
+            ck.fail("pca/not-svd", "pca on %s axis=%d (%s): %s" % (shape, axis, feat, bad), rp)
+        # projections = basis_vectors.T @ data (times the rmse scales), component axis at `axis`; not masked
+        P = (B.T @ Y) * scales
+        P = np.moveaxis(P.reshape((rank,) + vshape), 0, axis_pos)
+        if not close(proj, P, scale * max(1.0, float(scales.max()))):
+            ck.fail("pca/projections-mismatch", "pca on %s axis=%d (%s): basis_projections are not basis_vectors.T @ data%s "
+                    "with the component axis at position %d" % (shape, axis, feat, " * 1/rmse" if standardize else "", axis_pos), rp)
+        # (4) axis equivariance: same as moving the axis to the front first; negative == positive axis
+        r0 = pca(np.moveaxis(data, axis_pos, 0), axis=0, mask=mask, **opts)
+        sg = _pca_align(r0['basis_vectors'], B)
+        pscale = scale * max(1.0, float(scales.max()))
+        sgb = sg.reshape((rank,) + (1,) * (nd - 1))
+        ok4 = close(r0['basis_vectors'] * sg, B, 1.0, 1e-8) and close(r0['pcnt_var'], pv, 100.0) and \
+            close(np.moveaxis(r0['basis_projections'] * sgb, 0, axis_pos), proj, pscale, 1e-8)
+        if not ok4:
+            ck.fail("pca/axis-equivariance/%s-axis" % ("negative" if axis < 0 else "positive"),
+                    "pca(data %s, axis=%d) differs from pca(np.moveaxis(data, %d, 0), axis=0) moved back (%s)"
+                    % (shape, axis, axis_pos, feat), rp)
+        other = axis_pos - nd if axis >= 0 else axis_pos
+        r1 = pca(data, axis=other, mask=mask, **opts)
+        if not (close(r1['basis_vectors'], B) and close(r1['pcnt_var'], pv, 100.0) and close(r1['basis_projections'], proj, pscale)
+                and r1['axis'] == res['axis']):
+            ck.fail("pca/axis-equivariance/negative-axis", "pca(data %s, axis=%d) differs from axis=%d" % (shape, axis, other), rp)
+        # (5) masked == extracted voxels
+        if mask is not None:
+            ext = Y[:, mask.reshape(-1)]
+            r2 = pca(ext, axis=0, **opts)
+            if r2['basis_vectors'].shape != B.shape:
+                ck.fail("pca/mask-vs-extracted", "pca(data %s, mask) and pca(extracted voxels) have different ranks" % (shape,), rp)
+            else:
+                s2 = _pca_align(r2['basis_vectors'], B)
+                pm = np.moveaxis(proj, axis_pos, 0).reshape(rank, -1)[:, mask.reshape(-1)]
+                if not (close(r2['basis_vectors'] * s2, B, 1.0, 1e-8) and close(r2['pcnt_var'], pv, 100.0)
+                        and close(r2['basis_projections'] * s2[:, None], pm, pscale, 1e-8)):
+                    ck.fail("pca/mask-vs-extracted", "pca(data %s, axis=%d, mask=%s) differs from pca on the extracted (n_pts, n_selected) "
+                            "voxels (%s)" % (shape, axis, mkind, feat), rp)
+        # (6) ncomp only truncates basis_projections
+        for nc in sorted(set([1, 2, rank]) - {0}):
+            if nc > rank:
+                continue
+            r3 = pca(data, axis=axis, mask=mask, ncomp=nc, **opts)
+            ws = shape[:axis_pos] + (nc,) + shape[axis_pos + 1:]
+            if not (close(r3['basis_vectors'], B) and close(r3['pcnt_var'], pv, 100.0) and r3['basis_projections'].shape == ws
+                    and close(r3['basis_projections'], np.take(proj, range(nc), axis=axis_pos), pscale)):
+                ck.fail("pca/ncomp-changes-basis", "pca(data %s, axis=%d, ncomp=%d): basis/pcnt_var changed or projections are not the "
+                        "leading %d components (shape %s)" % (shape, axis, nc, nc, r3['basis_projections'].shape), dict(rp, ncomp=nc))
+        if case == 3:
+            ck.sample({"call": "pca(float array %s, axis=%d, mask=%s, standardize=%s, design_resid=%s)" % (shape, axis, mkind, standardize, rk),
+                       "pcnt_var": pv.tolist(), "rank": rank})
+    # (7) pca_image through an Image: axis by name, index, negative index
+    from nipy.core.api import Image, AffineTransform
+    from nipy.core.reference.coordinate_map import drop_io_dim
+    n_img = 0
+    for k in range(ck.n(3, 10)):
+        shp = tuple(int(v) for v in rng.integers(2, 5, size=3)) + (int(rng.integers(3, 7)),)
+        d4 = rng.normal(size=shp)
+        img = Image(d4, AffineTransform.from_params('ijkt', 'xyzt', np.diag([2., 3., 4., 2.5, 1.])))
+        msk = None
+        mimg = None
+        if k % 2 == 1:
+            msk = rng.random(shp[:3]) < 0.7
+            msk.reshape(-1)[:7] = True
+            mimg = Image(msk.astype(float), drop_io_dim(img.coordmap, 't'))
+        for ax_img, ax_arr, kind in (('t', 3, "name"), (3, 3, "index"), (-1, 3, "negative-index"), ('i', 0, "name-first"), (0, 0, "index-first")):
+            if ax_arr == 0 and (shp[0] < 3 or msk is not None):
+                continue
+            ra = pca(d4, axis=ax_arr, mask=msk, ncomp=2)
+            try:
+                ri = pca_image(img, axis=ax_img, mask=mimg, ncomp=2)
+            except Exception as e:  # noqa
+                ck.fail("pca/pca-image-raises/%s" % kind, "pca_image(img %s, axis=%r) raised %s: %s" % (shp, ax_img, type(e).__name__, e),
+                        {"shape": shp, "axis": ax_img})
+                continue
+            n_img += 1
+            ck.count(("pca_image", k, kind), bucket="pca_image:%s,mask=%s" % (kind, msk is not None))
+            pi = np.asarray(ri['basis_projections'].get_fdata())
+            if not (ri['axis'] == ax_arr and close(ri['basis_vectors'], ra['basis_vectors']) and close(ri['pcnt_var'], ra['pcnt_var'], 100.0)
+                    and close(pi, ra['basis_projections'], 10.0)
+                    and ri['basis_projections'].coordmap.function_domain.coord_names[ax_arr] == 'PCA components'):
+                ck.fail("pca/pca-image-vs-array/%s" % kind, "pca_image(img %s, axis=%r%s) differs from pca(array, axis=%d)"
+                        % (shp, ax_img, ", mask" if msk is not None else "", ax_arr),
+                        {"shape": shp, "axis": ax_img, "data": d4.tolist(), "mask": None if msk is None else msk.astype(int).tolist()})
+    ck.section("pca", cases=n_done, per_vector_svd_comparisons=n_vec, pca_image_cases=n_img, tolerance=TOL)
+    ck.trust.append("numpy.linalg svd/eigh/pinv are oracles: pca's decomposition is checked numerically (1e-10 relative) against an "
+                    "independent numpy SVD of the projected, standardised, mask-weighted data")
+
+
 def run(ck):
     ck.cov["rule"] = ("slice timing: every registered schedule name x n_slices 1..N x TR set (exhaustive over n in range; "
-                      "non-trivial when n>1; distinct by (name,n,TR))")
+                      "non-trivial when n>1; distinct by (name,n,TR)).  time_slice_diffs: shapes of 2..5 dims with extents 1..4 "
+                      "(quick: all 2-d/3-d + a deterministic sample of 4-d/5-d; thorough: all 1360) x every ordered axis pair x "
+                      "{non-negative, negative, None} spellings, data 81*int in [-8,8]; non-trivial when T>1 and a volume has >1 voxel.  "
+                      "mask: small 3-d volumes (ties/zeros, ints, dyadics, bimodal) x 7 (m,M) windows x exclude_zeros; 1..5 random masks x "
+                      "thresholds j/10; random 3-d masks for components.  generators: all shapes of 1..4 dims extents 1..3 x int axes, "
+                      "axis lists of 1..4 entries.  pca: random float arrays x axis x mask x standardize x designs (tolerance 1e-10)")
     ck.coq_build()
     ck.overlay()
     slicetiming(ck)
     timediff(ck)
     masks(ck)
+    generators(ck)
+    pca_oracles(ck)
